@@ -29,14 +29,27 @@ static void build(VectorInt& ranks, bool trimmed)
   new (&nm->_movingDst) VectorDouble(VF_NECH);
   new (&nm->_movingIsect) VectorInt(VF_NSECT);
   new (&nm->_movingNsect) VectorInt(VF_NSECT);
-  for (int j = 0; j < VF_NECH; j++) sec0[j] = -1;
+  // arbitrary injective candidate -> sample map (partial Fisher-Yates shuffle: every injection is reachable)
+  int perm[VF_NECH];
+  for (int j = 0; j < VF_NECH; j++)
+  {
+    sec0[j] = -1;
+    perm[j] = j;
+  }
+  double dprev = 0;
   for (int i = 0; i < VF_NSEL; i++)
   {
-    ind[i] = vf_range(0, VF_NECH - 1);
-    for (int k = 0; k < i; k++) vf_assume(ind[k] != ind[i]); // a sample is listed once
-    dst[i] = vf_finite_double();
-    vf_assume(dst[i] >= 0);
-    if (i > 0) vf_assume(dst[i - 1] < dst[i]); // sorted, no ties
+    int r   = vf_range(i, VF_NECH - 1);
+    int t   = perm[r];
+    perm[r] = perm[i];
+    perm[i] = t;
+    ind[i]  = t;
+    // strictly increasing non-negative distances (sorted, no ties): previous one plus a non-zero |step|
+    double e = vf_finite_double();
+    if (e < 0) e = -e;
+    if (i > 0) vf_assume(e != 0);
+    dst[i] = dprev + e;
+    dprev  = dst[i];
     // sector of the candidate; after the quota step a candidate may already have been discarded (-1)
     int s = vf_range(trimmed ? -1 : 0, VF_NSECT - 1);
     sec0[ind[i]] = s;
